@@ -80,9 +80,10 @@ Theorem C18_constraint_kept :
 Proof. exact constraint_kept. Qed.
 Print Assumptions C18_constraint_kept.
 
-(* FULL under the stated guard.  Vertex-based field: a feature vertex whose accumulated constraint passes the 1e-8 guard
+(* PARTIAL: under the guard that the accumulated constraint passes the 1e-8 test (it fails when the feature edges at the
+   vertex cancel - known finding unit/zero-constraint).  Vertex-based field: such a feature vertex
    is initialised with modulus 1 and keeps exactly that value through optimize. *)
-Theorem C18_constraint_vertices :
+Theorem C18_constraint_vertices_partial :
   forall (T : Type) (O : ops T), laws O ->
   forall (solve : cmat T -> list Z -> (Z -> cx T) -> (Z -> cx T)) (smooth : (Z -> cx T) -> (Z -> cx T))
          (sn : bool) (order n_smooth : nat) (cots : option (list (T * T * T))) (trs : list (Z * Z * cx T))
@@ -94,7 +95,7 @@ Theorem C18_constraint_vertices :
     ff_vertices_fn T O solve smooth sn order n_smooth cots trs Bv V F E FE v
     = init_vertices O sn order V E Bv (tr_lookup O trs) FE v.
 Proof. exact constraint_vertices. Qed.
-Print Assumptions C18_constraint_vertices.
+Print Assumptions C18_constraint_vertices_partial.
 
 (* FULL.  Vertex-based field: the representation power is the field's order (cstrv_power, generated from the four
    `** self.order` of vertex2d._initialize_variables).  With a single feature edge e = (A, B), A <> B, in the plain-sum
@@ -111,10 +112,12 @@ Theorem C18_constraint_vertices_power :
 Proof. exact init_vertices_single_edge. Qed.
 Print Assumptions C18_constraint_vertices_power.
 
-(* FULL under the stated guard ("no value below the threshold").  normalize gives modulus 1 (re^2 + im^2 = 1) to every
+(* PARTIAL: under the per-element guard "modulus above the threshold", which is not a condition on the input (it depends on
+   the solver's answer; without it the clause is refuted below and fails on symmetric inputs - known findings unit/...).
+   normalize gives modulus 1 (re^2 + im^2 = 1) to every
    element whose modulus passes the generated guard abs > 1e-10; so does the whole bordered pipeline, for any solver, any
    smoothing answers and any number of smoothing steps, at every element whose last un-normalised value passes the guard. *)
-Theorem C18_unit :
+Theorem C18_unit_partial :
   forall (T : Type) (O : ops T), laws O ->
     (forall z : cx T, norm_guard O (cabs O z) = true -> cnorm2 O (norm_elem O z) = o1 O) /\
     (forall solve smooth er rhs sg n_smooth L var0 free fixed i,
@@ -122,7 +125,7 @@ Theorem C18_unit :
         norm_guard O (cabs O (opt_pre O solve smooth rhs sg n_smooth L var0 free fixed i)) = true ->
         cnorm2 O (opt_bordered O solve smooth er rhs sg n_smooth L var0 free fixed i) = o1 O).
 Proof. exact unit_all. Qed.
-Print Assumptions C18_unit.
+Print Assumptions C18_unit_partial.
 
 (* REFUTED without the guard (known finding unit/zero-solution): normalize leaves a zero entry at zero. *)
 Theorem C18_unit_unguarded_refuted : ~ (forall z : cx Q, cnorm2 Qops (norm_elem Qops z) = 1%Q).
